@@ -7,6 +7,7 @@ import (
 	"errors"
 	"fmt"
 	"reflect"
+	"sort"
 	"strings"
 	"time"
 	"unsafe"
@@ -86,6 +87,9 @@ type liveQuery struct {
 	lastIDs string
 	lastErr string
 	rr      *reactive.Rerunner
+	// second: another query issued by the same computation (same rerunner, so
+	// both go through the same reactive cache)
+	second *liveQuery
 }
 
 func liveBody(c *runner.Ctx) {
@@ -151,6 +155,7 @@ func liveBody(c *runner.Ctx) {
 		}
 	}
 	writesDone := false
+	bursting := false // during a burst the replication connection delivers without delays
 	delivered := 0
 	go func() { // the replication connection: in order, with delays and stalls
 		for !(writesDone && len(pending) == 0) {
@@ -158,7 +163,7 @@ func liveBody(c *runner.Ctx) {
 				simrt.Sleep(time.Millisecond)
 				continue
 			}
-			switch c.Biased(4, 600, "binlog-delay") {
+			switch d := c.Biased(4, 600, "binlog-delay"); map[bool]int{true: 0, false: d}[bursting] {
 			case 1:
 				c.Fault("binlog-delay")
 				simrt.Sleep(time.Duration(1+c.Choose(30, "binlog-delay-ms")) * time.Millisecond)
@@ -185,14 +190,31 @@ func liveBody(c *runner.Ctx) {
 		queries = append(queries, q)
 		batched := c.Choose(2, "batched") == 1
 		c.Describe("live query %d filter %s row=%v batched=%v", i, desc, q.single, batched)
-		q.rr = reactive.NewRerunner(ctx, func(ctx context.Context) (interface{}, error) {
-			q.runs++
-			if q.runs > 1 {
-				c.NonTrivial()
+		if c.Choose(3, "second-query") == 1 {
+			// the same computation issues a second query with the same filter
+			// columns and other values (strings are drawn from a set in which
+			// different value tuples concatenate to the same text)
+			f2 := sqlgen.Filter{}
+			var d2 []string
+			for col := range f {
+				switch col {
+				case "name":
+					f2[col] = []string{"a", "ab", "ann"}[c.Choose(3, "second-name")]
+				case "nick":
+					f2[col] = []string{"bc", "c", "x"}[c.Choose(3, "second-nick")]
+				case "kind":
+					f2[col] = Kind([]string{"k1", "k2"}[c.Choose(2, "second-kind")])
+				default:
+					f2[col] = f[col]
+				}
+				d2 = append(d2, fmt.Sprintf("%s=%s", col, repr(f2[col])))
 			}
-			if batched {
-				ctx = batch.WithBatching(ctx)
-			}
+			sort.Strings(d2)
+			q.second = &liveQuery{idx: 100 + i, filter: f2, desc: "{" + strings.Join(d2, ", ") + "}"}
+			queries = append(queries, q.second)
+			c.Describe("live query %d (same rerunner as %d) filter %s", q.second.idx, i, q.second.desc)
+		}
+		runQuery := func(ctx context.Context, q *liveQuery) error {
 			var rows []*User
 			var err error
 			if q.single {
@@ -204,11 +226,29 @@ func liveBody(c *runner.Ctx) {
 			} else {
 				err = ldb.Query(ctx, &rows, q.filter, nil)
 			}
+			q.runs++
 			q.lastErr = errKind(err)
 			q.lastIDs = usersString(rows)
 			simrt.Logf("live query %d run %d -> %s %s", q.idx, q.runs, q.lastIDs, q.lastErr)
 			if err != nil && !errors.Is(err, sql.ErrNoRows) && !strings.Contains(err.Error(), "no more than 1") {
+				return err
+			}
+			return nil
+		}
+		q.rr = reactive.NewRerunner(ctx, func(ctx context.Context) (interface{}, error) {
+			if q.runs >= 1 {
+				c.NonTrivial()
+			}
+			if batched {
+				ctx = batch.WithBatching(ctx)
+			}
+			if err := runQuery(ctx, q); err != nil {
 				return nil, err
+			}
+			if q.second != nil {
+				if err := runQuery(ctx, q.second); err != nil {
+					return nil, err
+				}
 			}
 			return nil, nil
 		}, 10*time.Millisecond, c.Choose(2, "always-spawn") == 1)
@@ -263,13 +303,15 @@ func liveBody(c *runner.Ctx) {
 		}
 		id := int64(1 + c.Choose(len(tbl.rows)+2, "write-id"))
 		var nick *string
-		switch c.Choose(3, "write-nick") {
+		switch c.Choose(4, "write-nick") {
 		case 1:
 			nick = strp("x")
 		case 2:
-			nick = strp("y")
+			nick = strp("c")
+		case 3:
+			nick = strp("bc")
 		}
-		u := &User{Id: id, OrgId: int64(1 + c.Choose(2, "write-org")), Name: []string{"ann", "bob", "cy"}[c.Choose(3, "write-name")], Nick: nick,
+		u := &User{Id: id, OrgId: int64(1 + c.Choose(2, "write-org")), Name: []string{"ann", "bob", "a", "ab"}[c.Choose(4, "write-name")], Nick: nick,
 			Age: int32(20 + 10*c.Choose(2, "write-age")), Kind: Kind([]string{"k1", "k2"}[c.Choose(2, "write-kind")]), Active: c.Choose(2, "write-active") == 1}
 		var err error
 		op := []string{"upsert", "update", "delete", "insert", "multi-update", "multi-delete", "multi-insert"}[c.Choose(7, "write-op")]
@@ -282,7 +324,7 @@ func liveBody(c *runner.Ctx) {
 		case "multi-insert":
 			u2, u3 := *u, *u
 			u.Id, u2.Id, u3.Id = 0, 0, 0
-			u2.OrgId, u3.Name = 3-u.OrgId, "cy"
+			u2.OrgId, u3.Name = 3-u.OrgId, "ab"
 			err = writer.InsertRows(context.Background(), []*User{u, &u2, &u3}, 10)
 		case "upsert":
 			_, err = writer.UpsertRow(context.Background(), u)
@@ -299,12 +341,29 @@ func liveBody(c *runner.Ctx) {
 			simrt.Logf("write %s failed: %v", op, err)
 		}
 	}
+	if updateDelay > 0 && c.Choose(4, "burst") == 1 && len(tbl.rows) > 0 {
+		// a burst of more change events than the poll loop's update queue holds,
+		// delivered while the applier is still waiting out the update delay; the
+		// last write of the burst is one that matters
+		c.Fault("binlog-burst")
+		bursting = true
+		target := tbl.rows[0]["id"].(int64)
+		for i := 0; i < 1100; i++ {
+			conn.ExecContext(context.Background(), "UPDATE users SET active = ? WHERE id = ?", i%2 == 0, target)
+		}
+		conn.ExecContext(context.Background(), "UPDATE users SET name = ?, kind = ?, age = ? WHERE id = ?", "bob", "k2", int64(30), target)
+		desc = append(desc, "BURST(1101 updates)")
+	}
 	writesDone = true
 	c.Describe("writes: %s", strings.Join(desc, " "))
 
 	// ---- quiescence ----
-	for i := 0; i < 300 && len(pending) > 0; i++ {
+	for i := 0; i < 3000 && len(pending) > 0; i++ {
 		simrt.Sleep(time.Second)
+	}
+	if len(pending) > 0 {
+		c.Violate("harness-stream-not-drained", "%d events still undelivered", len(pending))
+		return
 	}
 	simrt.Sleep(5 * time.Minute)
 	undecodable = logErrors
@@ -338,7 +397,9 @@ func liveBody(c *runner.Ctx) {
 	}
 	for _, q := range queries {
 		q := q
-		go func() { q.rr.Stop() }()
+		if q.rr != nil {
+			go func() { q.rr.Stop() }()
+		}
 	}
 	cancelAll()
 	errCh <- errors.New("replication connection closed")
